@@ -21,6 +21,16 @@ def items(tier):
             sp = F.with_teams(fl, lay)
             for rule in rules:
                 out.append((sp, {"rule": rule, "max_time": F.seq_bound(sp) + 8}))
+    # zero-work (milestone) tasks: not exempt - their default progress is 0 - so they must wait like any other task
+    for fl in F.flows(3, F.KINDS4, (0, 2)):
+        if all(t["work"] > 0 for t in fl["tasks"]):
+            continue
+        for lay in (("POOL2",) if tier == "quick" else ("POOL2", "DED")):
+            sp = F.with_teams(fl, lay)
+            out.append((sp, {"rule": "TSLACK", "max_time": F.seq_bound(sp) + 8}))
+        sp = F.with_teams(fl, "POOL2")
+        sp = dict(sp, tasks=[dict(t, auto=(t["work"] == 0)) for t in sp["tasks"]])
+        out.append((sp, {"rule": "TSLACK", "max_time": F.seq_bound(sp) + 8}))
     # pre-finished / half-done / automatic variants on the 2-work flows
     base = list(F.flows(3, F.KINDS4, (2,)))
     for fl in base:
@@ -62,7 +72,7 @@ def run(tier, seed):
     col = stepcheck.explore(its, MONS, H, D, who_fn=lambda sp: stepcheck.default_who(sp, facilities=False), seed=seed)
     meta = {
         "level": "model_checking",
-        "rule": "every workflow on 3 tasks (thorough: also 4) with each pair i<j unlinked or linked FS/SS/FF/SF x work vectors x team layouts x task rules "
+        "rule": "every workflow on 3 tasks (thorough: also 4) with each pair i<j unlinked or linked FS/SS/FF/SF x work vectors (incl. zero-work milestone tasks, manual and automatic) x team layouts x task rules "
         "x progress/auto/order variants, each explored over all per-step absence answers (project-wide or one worker) up to horizon H with at most D "
         "non-default answers, state-merged at choice points; non-trivial = distinct (model, task, predecessor-state vector) combinations at which a start or finish gate of a task with predecessors was evaluated",
         "bounds": {"H": H, "D": D, "base_models": len(its)},
